@@ -234,7 +234,7 @@ def run(ctx):
         stats['files'] += 1
         if r:
             written.append(r)
-    nrand = 600 if ctx.thorough() else 80
+    nrand = 4000 if ctx.thorough() else 80
     for k in range(nrand):
         if k % 3 == 2:
             text, what = c06.long_file(rng), 'long instructions'
